@@ -270,7 +270,8 @@ PROPS["C15"] = {
 }
 
 PROPS["C20"] = {
-    "rule": "cases: a history of 6-16 operations over LPay (Symbol, u32, i64 and bool payloads; insertions, unions, rewrite iterations incl. a b[x:=t] rule, e-matching, extraction, dump) is replayed "
+    "rule": "cases: a history of 6-16 operations over LPay (Symbol, u32, i64 and bool payloads; insertions, unions, rewrite iterations incl. a b[x:=t] rule, e-matching, extraction, dump), over LSym, or over LArith with a "
+            "constant-folding analysis whose modify hook adds and unions (noise threads run such hooks too) is replayed "
             "(a) once alone as baseline, (b) in 4 fresh threads released by a barrier together with 4 noise threads that build unrelated e-graphs and intern unrelated symbols, with yields "
             "injected at operation boundaries, (c) in 3 separate processes whose stdout (including EGraph::dump output) is compared line by line. Transcript = every returned invocation and "
             "slot set, find results, ids(), node counts, progress, match lists in returned order, extracted terms and costs, final class listings. The monitor logs (thread, operation) at every "
@@ -279,7 +280,7 @@ PROPS["C20"] = {
     "quick": [{"variant": "default", "cases": 480, "params": {"processes": 3}, "timeout": 900}, {"variant": "default", "cases": 1800, "params": {"processes": 0}, "timeout": 900}],
     "thorough": [{"variant": "default", "cases": 12000, "params": {"processes": 3}, "timeout": 3400}, {"variant": "default", "cases": 60000, "params": {"processes": 0}, "timeout": 3400},
                  {"variant": "explanations", "cases": 4000, "params": {"processes": 0}, "timeout": 3400}],
-    "floors": {"any": {"thread_replays": 2000, "process_replays": 300, "dump_lines_compared": 1000, "thread_switches_observed": 5000, "noise_iterations_during_replays": 5000}},
+    "floors": {"any": {"histories_with_analysis_hooks": 150, "thread_replays": 2000, "process_replays": 300, "dump_lines_compared": 1000, "thread_switches_observed": 5000, "noise_iterations_during_replays": 5000}},
 }
 
 PROPS["C07"] = {
@@ -396,3 +397,15 @@ PROPS["C02"]["floors"]["any"].update({"wide_consequences_judged": 100000, "wide_
 PROPS["C09"]["quick"].append({"variant": "default", "cases": 20000, "worker_prop": "C09wide", "timeout": 600})
 PROPS["C09"]["thorough"].append({"variant": "default", "cases": 600000, "worker_prop": "C09wide", "timeout": 3000})
 PROPS["C09"]["floors"]["any"]["wide_known_terms_reinserted"] = 50000
+
+# C14 on the symbolic language: (min size, min depth) analysis with a modify hook that adds a parent, under the shared history generator
+# (permuted copies, redundancy, self-reference, congruence chains): the datum must stay the make/merge fix-point while classes shrink,
+# gain symmetries and die. The same runs judge C08's structural invariants with an analysis attached to symmetric classes.
+PROPS["C14"]["quick"].append({"variant": "default", "cases": 16000, "worker_prop": "C14sym", "timeout": 600})
+PROPS["C14"]["quick"].append({"variant": "default", "cases": 8000, "params": {"sparse": 1}, "worker_prop": "C14sym", "timeout": 600})
+PROPS["C14"]["thorough"].append({"variant": "default", "cases": 400000, "worker_prop": "C14sym", "timeout": 3000})
+PROPS["C14"]["thorough"].append({"variant": "default", "cases": 200000, "params": {"sparse": 1}, "worker_prop": "C14sym", "timeout": 3000})
+PROPS["C14"]["thorough"].append({"variant": "checks", "cases": 100000, "worker_prop": "C14sym", "timeout": 3000})
+PROPS["C14"]["floors"]["any"]["symbolic_histories_completed"] = 5000
+PROPS["C08"]["quick"].append({"variant": "default", "cases": 8000, "worker_prop": "C14sym", "timeout": 600})
+PROPS["C08"]["thorough"].append({"variant": "default", "cases": 200000, "worker_prop": "C14sym", "timeout": 3000})
